@@ -68,6 +68,12 @@ instance (fs : BL) (types offs cur : List Int) (idx : Nat) : NoCtx (serializeVar
 
 instance (s : SS) : NoCtx s.start := by unfold SS.start; noctx
 
+instance (views : List Nat) (buf value : Bytes) : NoCtx (viewPushValue views buf value) := by
+  unfold viewPushValue; noctx
+
+instance (views : List Nat) (buf bytes : Bytes) : NoCtx (viewSeq views buf bytes) := by
+  unfold viewSeq; noctx
+
 /-- the scalar calls never annotate by themselves (the wrapper in `push` does) -/
 instance pushScalar_noctx (ext : Ext) [ExtPlain ext] : ∀ (b : B) (x : SVal), NoCtx (pushScalar ext b x)
   | .dictionary p idx vals index, x => by
